@@ -39,7 +39,8 @@ BOUNDS = [0, 1, 2, 3, 80]
 
 def schemes():
     return st.one_of(gen.free_schemes(), gen.free_schemes(), gen.tie_averse_schemes(), gen.tie_averse_schemes(),
-                     gen.tie_averse_schemes(), gen.preset_multiples(), gen.near_presets(), gen.decimal_schemes())
+                     gen.tie_averse_schemes(), gen.preset_multiples(), gen.near_presets(), gen.decimal_schemes(),
+                     gen.scaled_schemes(), gen.scaled_schemes())
 
 
 def classify(inst, rankings):
